@@ -5,6 +5,7 @@ from fractions import Fraction
 import numpy as _np
 from . import dag
 from .sym import Sym, SymBool, NaNMarker, NAN, K, PI, sym_array, node_of, HarnessError, f_and, cmp, _sb
+from .angles import Ang
 from .dag import NotEncodable
 
 numbers.Real.register(Sym)
@@ -17,12 +18,12 @@ def _hit(name):
 
 
 def has_sym(x):
-    if isinstance(x, (Sym, NaNMarker)):
+    if isinstance(x, (Sym, NaNMarker, Ang)):
         return True
     if isinstance(x, _np.ndarray):
         if x.dtype != object:
             return False
-        return any(isinstance(v, (Sym, NaNMarker)) or (isinstance(v, _np.ndarray) and v.shape == () and isinstance(v.item(), (Sym, NaNMarker))) for v in x.flat)
+        return any(isinstance(v, (Sym, NaNMarker, Ang)) or (isinstance(v, _np.ndarray) and v.shape == () and isinstance(v.item(), (Sym, NaNMarker, Ang))) for v in x.flat)
     if isinstance(x, (list, tuple)):
         return any(has_sym(v) for v in x)
     return False
@@ -30,7 +31,7 @@ def has_sym(x):
 
 def lift(x):
     """object array (or scalar) in which every number is a Sym constant."""
-    if isinstance(x, (Sym, NaNMarker)):
+    if isinstance(x, (Sym, NaNMarker, Ang)):
         return x
     if isinstance(x, (bool, _np.bool_)):
         return x
@@ -46,7 +47,7 @@ def lift(x):
         v = a[idx]
         if isinstance(v, _np.ndarray) and v.shape == ():
             v = v.item()
-        if isinstance(v, (Sym, NaNMarker)):
+        if isinstance(v, (Sym, NaNMarker, Ang)):
             out[idx] = v
         elif isinstance(v, (float, _np.floating)) and math.isnan(v):
             out[idx] = NAN
@@ -71,11 +72,11 @@ def _is_floaty(dtype):
 
 def _elementwise(method):
     def f(self, x, *args, out=None, dtype=None, where=True, **kw):
-        if isinstance(x, (Sym, NaNMarker)):
+        if isinstance(x, (Sym, NaNMarker, Ang)):
             return getattr(x, method)()
         if has_sym(x) or self.lift_all:
             a = lift(x)
-            if isinstance(a, Sym):
+            if isinstance(a, (Sym, Ang)):
                 return getattr(a, method)()
             r = _np.empty(a.shape, dtype=object)
             for idx in _np.ndindex(*a.shape):
